@@ -588,7 +588,9 @@ fn run_inst<T: Sc>(line: &Line, idx: usize, pools: &Pools, opts: &Opts, rep: &mu
     // having full column rank (C03: "whenever the weighted basis matrix has full column rank").
     if T::NAME == "f64" && inst.m >= 2 && idx % 3 == 0 {
         let jcol = inst.m - 1;
-        let sc = T::of64((2.0f64).powi(-30));
+        // alternately a tiny and a huge scale
+        let sexp: i32 = if idx % 2 == 0 { -30 } else { 24 };
+        let sc = T::of64((2.0f64).powi(sexp));
         let scaled = Arc::new(Table {
             n: inst.n,
             m: inst.m,
@@ -608,7 +610,7 @@ fn run_inst<T: Sc>(line: &Line, idx: usize, pools: &Pools, opts: &Opts, rep: &mu
                 .collect(),
         });
         let mrhs = inst.s >= 2;
-        let flav = format!("{} column-scaled twin (function {} x 2^-30)", tag(idx, &fam, T::NAME, Kind::Table, mrhs, false, EpsVar::Default), jcol);
+        let flav = format!("{} column-scaled twin (function {} x 2^{})", tag(idx, &fam, T::NAME, Kind::Table, mrhs, false, EpsVar::Default), jcol, sexp);
         if let Ok(mut twin) = build_problem(TableModel::new(scaled, &a_first), mrhs, false, &inst.y, wref, None) {
             for &qi in order.iter().take(npts) {
                 let pt = &inst.line.pts[qi];
@@ -622,9 +624,10 @@ fn run_inst<T: Sc>(line: &Line, idx: usize, pools: &Pools, opts: &Opts, rep: &mu
                     let mut wc = 0.0f64;
                     for j in 0..inst.m {
                         for s in 0..inst.s {
-                            let e = pt.cn[j][s] as f64 / pt.d as f64 * if j == jcol { (2.0f64).powi(30) } else { 1.0 };
-                            let scale = if j == jcol { (2.0f64).powi(30) } else { 1.0 };
-                            wc = wc.max((c[(j, s)].to64() - e).abs() / (scale * e.abs().max(1.0) / scale.max(1.0)).max(scale));
+                            let scale = if j == jcol { (2.0f64).powi(-sexp) } else { 1.0 };
+                            let e = pt.cn[j][s] as f64 / pt.d as f64 * scale;
+                            // relative to the magnitude this coefficient row has
+                            wc = wc.max((c[(j, s)].to64() - e).abs() / (scale * (pt.cn[j][s] as f64 / pt.d as f64).abs().max(1.0)));
                         }
                     }
                     rep.check("C01", wc <= 1e-5, wc, || det("coefficients of the column-scaled twin", wc));
